@@ -5,7 +5,11 @@
 package backend
 
 import (
+	"github.com/yorkie-team/yorkie/api/types"
+	pkgcache "github.com/yorkie-team/yorkie/pkg/cache"
+	"github.com/yorkie-team/yorkie/pkg/document"
 	"github.com/yorkie-team/yorkie/server/backend/background"
+	"github.com/yorkie-team/yorkie/server/backend/cache"
 	"github.com/yorkie-team/yorkie/server/backend/database"
 	"github.com/yorkie-team/yorkie/server/backend/sync"
 	"github.com/yorkie-team/yorkie/server/profiling/prometheus"
@@ -17,5 +21,12 @@ import (
 func VerifNewBackend(conf *Config, db database.Database, metrics *prometheus.Metrics) *Backend {
 	bg := background.New(metrics)
 	bg.Close()
-	return &Backend{Config: conf, DB: db, Lockers: sync.New(), Metrics: metrics, background: bg}
+	// the real sharded LRU for built documents (the other caches are not used
+	// by the code under check and would start timer goroutines)
+	snapshots, err := pkgcache.NewLRU[types.DocRefKey, *document.InternalDocument](64, "snapshots")
+	if err != nil {
+		panic(err)
+	}
+	return &Backend{Config: conf, DB: db, Lockers: sync.New(), Metrics: metrics, background: bg,
+		Cache: &cache.Manager{Snapshot: snapshots}}
 }
